@@ -19,7 +19,7 @@ RULE = ('cases: (a) single-node scripts - a random node (station told nothing / 
         'destination kind from random stations (and, in 40 % of the trees, from an application on a router), cold, organically warmed and installed caches; observed: the complete ordered trace of '
         'frames on every LAN and deliveries, compared with the model world run on the same script.  non-trivial = at least one frame '
         'or delivery results; distinct by full script.  (c) tree-cert - for random trees with installed caches the hypotheses of the tree theorems '
-        '(internet_okb, tree_tob, tree_fromb: levels / up-ports / parent ports found by BFS in the harness) are evaluated inside Coq on the model world; expected 1.')
+        '(internet_okb, tree_tob, tree_fromb: levels / up-ports / parent ports found by BFS in the harness) are evaluated inside Coq on the model world; expected 1.  The direct predicate also submits bursts: 2..4 packets for one remote network handed down in the same instant on cold trees.')
 TRUSTED = ['model coq/theories/Net.v written by hand after netservice.py:329-706, 878-1026 and vlan.py:55-131; tie = correspondence',
            'NPDUs are modelled in decoded form; the harness decodes LAN frames with its own decoder (c06_impl.npdu_decode); the NPCI codec is property C08',
            'RouterInfoCache is abstracted to its lookup function (snet, dnet) -> router MAC (coherent states only; property C19)']
